@@ -46,11 +46,42 @@ func performsObservation(r *Run) map[*ssa.Function]bool {
 	return out
 }
 
+// performsMutation computes, per cache-package function, whether it (transitively, through static in-package
+// calls) issues an unconditional mutator of the underlying map.
+func performsMutation(r *Run) map[*ssa.Function]string {
+	out := map[*ssa.Function]string{}
+	for changed := true; changed; {
+		changed = false
+		for _, f := range r.P.Funcs {
+			if f.Pkg != r.P.Cache || out[f] != "" {
+				continue
+			}
+			core.Instrs(f, func(in ssa.Instruction) {
+				c, ok := in.(ssa.CallInstruction)
+				if !ok || out[f] != "" {
+					return
+				}
+				if m, mm, ok := r.M.ItemsInvoke(c); ok && unconditionalMutator[m] {
+					out[f] = mm.Name + "." + m
+					changed = true
+					return
+				}
+				if cal := core.Callee(c); cal != nil && out[cal] != "" {
+					out[f] = out[cal] + " (via " + fn(cal) + ")"
+					changed = true
+				}
+			})
+		}
+	}
+	return out
+}
+
 // toctouCheck reports, for each function in fns, every unconditional mutator of the underlying map that can
 // execute after an earlier observation of the map in the same call (for closures handed to Range: after the
 // snapshot they receive). One obligation per function.
 func toctouCheck(r *Run, rep *core.Report, rule string, fns []*ssa.Function) int {
 	obs := performsObservation(r)
+	mut := performsMutation(r)
 	// closures that receive a Range snapshot
 	snapshot := map[*ssa.Function]bool{}
 	for _, f := range r.P.Funcs {
@@ -103,8 +134,13 @@ func toctouCheck(r *Run, rep *core.Report, rule string, fns []*ssa.Function) int
 				}
 				return []bool{s}
 			}
-			if cal := core.Callee(c); cal != nil && obs[cal] {
-				s = true
+			if cal := core.Callee(c); cal != nil {
+				if what := mut[cal]; what != "" && s && cal != f {
+					hits = append(hits, hit{in, fmt.Sprintf("%s, which issues the unconditional mutation %s, is called after an earlier map observation of this call: the entry may have been replaced in between (check-then-act), so a fresh value can be overwritten or removed", fn(cal), what), ctx.Node})
+				}
+				if obs[cal] {
+					s = true
+				}
 			}
 			return []bool{s}
 		}
